@@ -22,7 +22,8 @@ RULE = ("cycle: all multigraphs (mult<=2, <=6 edges) on <=4 vertices up to isomo
 ASSUMPTIONS = ["z3 decides the posted program correctly (SAT re-validated by M-SOLVE)",
                "primitive route: stand-in semantics of graph-active-vertices-connected on the line graph"]
 REQUIRED = ["cyc.cases", "cyc.want.valid", "cyc.want.invalid", "cyc.passed_checked", "cyc.primitive", "cyc.frame", "cyc.parallel",
-            "cyc.accepted_set_solves", "path.cases", "path.want.valid", "path.want.invalid", "path.frame", "cyc.empty_subset"]
+            "cyc.accepted_set_solves", "path.cases", "path.want.valid", "path.want.invalid", "path.frame", "cyc.empty_subset", "cyc.form.const", "cyc.form.mixed",
+            "path.form.const"]
 
 
 def plan(tier):
@@ -67,10 +68,24 @@ def graph_case(ctx, fn, n, edges, prim, be, rng):
     m = len(edges)
     tag = "cyc" if fn == "cycle" else "path"
     desc = {"fn": fn, "n": n, "edges": [list(e) for e in edges], "primitive": prim}
+    work = []
     for pattern in D.all_patterns(m):
+        work.append((pattern, "var"))
+        r = rng.random()
+        if r < 0.25:
+            work.append((pattern, "const"))  # edges whose state is already known, given as Python bools
+        elif r < 0.5:
+            work.append((pattern, "mixed"))
+    for pattern, form in work:
         s = cspuz.Solver()
-        ev = [s.bool_var() for _ in range(m)]
-        s.ensure([v if p else ~v for v, p in zip(ev, pattern)])
+        if form == "var":
+            ev = [s.bool_var() for _ in range(m)]
+            s.ensure([v if p else ~v for v, p in zip(ev, pattern)])
+        else:
+            ev, pins = D.apply_form(s, form, pattern, rng)
+            s.ensure(pins)
+            desc = dict(desc, form=form)
+            ctx.count(f"{tag}.form.{form}")
         try:
             if fn == "cycle":
                 arr = cspuz.array.BoolArray1D(ev) if sum(pattern) % 2 else ev
@@ -101,8 +116,18 @@ def frame_pointwise(ctx, fn, h, w, prim, be, patterns=None):
     desc = {"fn": fn, "frame": [h, w], "primitive": prim}
     for pattern in (patterns or D.all_patterns(len(segs))):
         s = cspuz.Solver()
-        fr = cspuz.BoolGridFrame(s, h, w)
-        s.ensure([L.frame_var(fr, sg) if p else ~L.frame_var(fr, sg) for sg, p in zip(segs, pattern)])
+        if ctx.rng.random() < 0.3:
+            # a frame over arrays the caller supplies (negations / compound expressions, as loop_dir-style code builds them)
+            acts, pins = D.apply_form(s, "mixed-nc", pattern, ctx.rng)
+            by = dict(zip(segs, acts))
+            hor = cspuz.array.BoolArray2D([[by[("h", y, x)] for x in range(w)] for y in range(h + 1)]) if w else None
+            ver = cspuz.array.BoolArray2D([[by[("v", y, x)] for x in range(w + 1)] for y in range(h)]) if h else None
+            fr = cspuz.BoolGridFrame(s, h, w, horizontal=hor, vertical=ver)
+            s.ensure(pins)
+            ctx.count(f"{tag}.frame_given_arrays")
+        else:
+            fr = cspuz.BoolGridFrame(s, h, w)
+            s.ensure([L.frame_var(fr, sg) if p else ~L.frame_var(fr, sg) for sg, p in zip(segs, pattern)])
         try:
             if fn == "cycle":
                 passed = graph.active_edges_single_cycle(s, fr, use_graph_primitive=prim)
